@@ -108,7 +108,10 @@ def run(ctx):
     for (pi, qi, decls, r), w in zip(wmeta, wres or []):
         for jt in w.get("ok", []):
             cand.append((pi, qi, jt, "enumerated", decls, r["name"]["ok"]))
-        for s in [x for x in r.get("values", []) if x and not corpus.has_dup_keys(x)][:4]:
+        # Rust `char` is declared as TypeScript `string`: the property is about one-character strings there; a mutant can move a longer
+        # string of the sample (a tag, a name) into an arm whose strings are chars, so mutants are only made where no `char` is involved
+        has_char = '"r": "char"' in closure_text(c.programs[pi], c.programs[pi]["probes"][qi]["ty"])
+        for s in ([] if has_char else [x for x in r.get("values", []) if x and not corpus.has_dup_keys(x)][:4]):
             for m in mutants(json.loads(s)):
                 cand.append((pi, qi, m, "mutant", decls, r["name"]["ok"]))
     # keep only candidates that inhabit the TypeScript type
